@@ -390,6 +390,7 @@ func checkC05(r *Run) {
 	}
 	r.Floor("send-wakeup", nSel, 2, "selects in send")
 	c05Rerror(r, send)
+	c05PayloadOwned(r)
 	freshRequestRecord(r, send, "fresh-request")
 
 	// each reply frame is a fresh object handed to exactly one caller
@@ -700,4 +701,44 @@ func freshRequestRecord(r *Run, send *ssa.Function, rule string) {
 			"the record handed to the owner loop is not fresh ("+why+"): a late reply or write error for an abandoned call reaches a later call")
 	}
 	r.Floor(rule, n, 1, "hand-over of the request record to the owner loop")
+}
+
+// c05PayloadOwned: a request may still be queued or on its way after the call that issued it has returned (the
+// caller abandoned it), and calls run concurrently: a request whose payload lives in storage of the session value
+// is shared between calls — a data race, and one call's bytes under another call's tag. Every reference-typed field
+// of a message a client method sends is therefore the caller's own (a parameter) or made by this call — never
+// something read out of the receiver.
+func c05PayloadOwned(r *Run) {
+	p := r.P
+	n := 0
+	for _, fn := range p.FuncsOfPkg("p9p") {
+		if fn.Parent() != nil || fn.Signature.Recv() == nil || !isP9P(fn.Signature.Recv().Type(), "client") || len(fn.Params) == 0 {
+			continue
+		}
+		if len(findCalls(fn, "invoke p9p.roundTripper.send")) == 0 {
+			continue
+		}
+		recv := ssa.Value(fn.Params[0])
+		eachInstr(fn, func(in ssa.Instruction) {
+			a, ok := in.(*ssa.Alloc)
+			if !ok {
+				return
+			}
+			flds, named, ok := allocFields(a)
+			if !ok || named == nil || !strings.HasPrefix(named.Obj().Name(), "MessageT") {
+				return
+			}
+			for f, v := range flds {
+				switch v.Type().Underlying().(type) {
+				case *types.Slice, *types.Pointer, *types.Map:
+				default:
+					continue
+				}
+				n++
+				r.Check(!derivesFrom(v, recv, 6), "payload-owned", fmt.Sprintf("%s: %s.%s is not storage of the session value", fnName(fn), named.Obj().Name(), f), in.Pos(),
+					"the request's payload lives in the session value, which concurrent (and abandoned, still queued) calls share: a data race, and one call's bytes can leave under another call's tag")
+			}
+		})
+	}
+	r.Floor("payload-owned", n, 2, "reference-typed request fields in client methods (Twrite.Data, Twalk.Wnames)")
 }
